@@ -74,7 +74,7 @@ func main() {
 	}
 	seed, _ := strconv.ParseInt(os.Getenv("VERIF_SEED"), 10, 64)
 	cfg := &RunCfg{Workers: *workers, SolverBin: *solver, TimeoutMs: *timeout, LiveTimeoutMs: 3000, Thorough: *thorough,
-		MaxPaths: *maxPaths, LoopBound: 12, MaxSteps: 2000000, MaxVisible: 400, Seed: seed, LogSMT: *logSMT}
+		MaxPaths: *maxPaths, LoopBound: 40, MaxSteps: 2000000, MaxVisible: 400, Seed: seed, LogSMT: *logSMT}
 
 	var runs []*HarnessRun
 	for _, h := range sel {
